@@ -246,6 +246,9 @@ def band_rules(run, db):
     copies = {b_['V_w'] for pat in ('V_w = psd.copy()', 'V_w = np.array(psd)', 'V_w = np.copy(psd)') for b_, _ in find(f.node, pat)}
     stores = [n for n in walk_no_nested(f.node) if isinstance(n, ast.Assign) and isinstance(n.targets[0], ast.Subscript) and isinstance(n.targets[0].value, ast.Name)
               and n.targets[0].value.id in copies and isinstance(n.value, ast.Constant) and n.value.value == 0]
+    if not stores:
+        # the band is imposed some other way (a boolean mask multiplied in, np.where, a bounding box ...): not followed here
+        raise AnalysisError('bandlimited_rms: no masked store zeroing a copy of the PSD was found; how the band is imposed is not followed')
     from ..domains.pred import PredDomain, Pred, eval_pred, p_or
     from ..domains.normdom import install_pi
     from ..core.interp import Frame
@@ -466,6 +469,8 @@ def edge_rules(run, db):
         if not res:
             raise AnalysisError('bandlimited_rms edges (%s): no returning path' % label)
         for p in res:
+            if not (isinstance(p.value, Tup) and len(p.value.items) == 2):
+                raise AnalysisError('bandlimited_rms edges (%s): the (lower, upper) edge pair is not followed to the end of the edge block (%r)' % (label, p.value))
             lo, hi = [dom.rat(v) for v in p.value.items]
             ok = lo is not None and hi is not None and lo == wlo and hi == whi
             run.check(ok, 'C13.band', f.qual, 'edges: ' + label, 'band given by %s resolves to [%s, %s]' % (label, wlo.key(), whi.key()),
